@@ -272,6 +272,9 @@ def _enum_centre(arm):
             return _Vec(range(*v))
         if isinstance(n, ast.Call) and ast.unparse(n.func) == 'len' and len(n.args) == 1:
             return len(ev(n.args[0], env))
+        if isinstance(n, ast.Call) and ast.unparse(n.func) in ('max', 'min') and not n.keywords and n.args:
+            vals = [ev(a, env) for a in n.args]
+            return max(vals) if ast.unparse(n.func) == 'max' else min(vals)
         raise AnalysisError(f'get_steps: cannot evaluate {ast.unparse(n)}')
 
     bad = []
@@ -458,5 +461,19 @@ def r11(ctx, R):
                     uses = [u for u in uses if u is not a.value] + [x for x in ast.walk(fn) if isinstance(x, ast.Name) and x.id == al and isinstance(x.ctx, ast.Load) and x.lineno > a.lineno]
             real = [u for u in uses]
             R.check(bool(real), f'get_finite_difference_matrix :: the option {s.value.args[0].value!r} (popped into `{name}`) is used', w, 'at least one later read', f'{len(real)} read(s)')
+    # the Neumann closure is built with exactly the requested order (not min / max / a function of it)
+    cl = [c for c in ast.walk(fn) if isinstance(c, ast.Call) and ast.unparse(c.func).split('.')[-1] == 'get_finite_difference_stencil' and any(k.arg == 'derivative' and ast.unparse(k.value) == '1' for k in c.keywords) and any(k.arg == 'stencil_type' and 'forward' in ast.unparse(k.value) for k in c.keywords)]
+    vals = []
+    for c in cl:
+        v = next((k.value for k in c.keywords if k.arg == 'order'), None)
+        txt = ast.unparse(v) if v is not None else None
+        if isinstance(v, ast.Name):
+            defs = [a.value for a in walk_no_nested(fn) if isinstance(a, ast.Assign) and len(a.targets) == 1 and isinstance(a.targets[0], ast.Name) and a.targets[0].id == v.id]
+            if len(defs) == 1 and not (isinstance(defs[0], ast.Call) and ast.unparse(defs[0].func).endswith('.pop')):
+                txt = ast.unparse(defs[0])
+            elif len(defs) == 1:
+                txt = v.id
+        vals.append(txt)
+    R.check(len(cl) == 1 and vals == ['neumann_bc_order'], 'get_finite_difference_matrix :: the one-sided Neumann closure is built with order = neumann_bc_order', w, 'get_finite_difference_stencil(derivative=1, order=neumann_bc_order, ..)', vals)
     if n < 3:
         raise AnalysisError(f'C18.R11: only {n} popped boundary options found')
